@@ -88,7 +88,7 @@ Section Locality.
 
   Lemma exec_read_local k r st : exec_read args m k r st = exec_read args m' k r st.
   Proof.
-    assert (D: firstn (Z.to_nat (m_len m')) (m_data m) = firstn (Z.to_nat (m_len m')) (m_data m')) by (now rewrite <- Hlen).
+    assert (D: firstn (Z.to_nat (m_len m')) (m_data m) = firstn (Z.to_nat (m_len m')) (m_data m')) by (rewrite <- Hlen, Hdat, Hlen; reflexivity).
     unfold exec_read. rewrite penv_local, Hlen. destruct r.
     - rewrite (get_int_local n s def _ _ _ _ D). reflexivity.
     - rewrite (get_double_local n s pbits defbits _ _ _ _ D). reflexivity.
